@@ -3,22 +3,23 @@
 # against it, undoes it (git checkout -- .), and records which checks fired in seeded/<id>/result.json.
 # usage: tools/run_seeded.sh [id ...]
 cd /verif
+REPO=${REPO:-/repo}   # a scratch worktree may be given instead (REPO=/tmp/x); the checker is then run with -repo
 ids="$@"; [ -z "$ids" ] && ids=$(ls seeded | grep '^C')
 props=$(python3 -c "import json;print(' '.join(c['property_id'] for c in json.load(open('/verif/MANIFEST.json'))['checks']))")
-if [ -n "$(git -C /repo status --porcelain)" ]; then echo "/repo is not clean"; exit 2; fi
+if [ -n "$(git -C $REPO status --porcelain)" ]; then echo "$REPO is not clean"; exit 2; fi
 for id in $ids; do
   d=seeded/$id
-  git -C /repo apply /verif/$d/patch.diff || { echo "$id: patch does not apply"; continue; }
+  git -C $REPO apply /verif/$d/patch.diff || { echo "$id: patch does not apply"; continue; }
   : > /tmp/seeded_$id.txt
   T=$(mktemp -d /tmp/seeded_run.XXXXXX)
-  echo $props | tr ' ' '\n' | xargs -P 5 -I{} sh -c '${SGCHECK:-bin/sgcheck} -property {} -tier quick -no-evidence > '$T'/{}.out 2>&1; echo $? > '$T'/{}.rc'
+  echo $props | tr ' ' '\n' | xargs -P 5 -I{} sh -c '${SGCHECK:-bin/sgcheck} -property {} -repo '$REPO' -tier quick -no-evidence > '$T'/{}.out 2>&1; echo $? > '$T'/{}.rc'
   for p in $props; do
     echo "### $p rc=$(cat $T/$p.rc)" >> /tmp/seeded_$id.txt
     grep -E "^VIOLATION|^  rule=|^UNDECIDED|^COVERAGE|^CHECK-ERROR" $T/$p.out >> /tmp/seeded_$id.txt
   done
   rm -rf $T
-  git -C /repo apply -R /verif/$d/patch.diff 2>/dev/null   # also removes files the patch created
-  git -C /repo checkout -- .
+  git -C $REPO apply -R /verif/$d/patch.diff 2>/dev/null   # also removes files the patch created
+  git -C $REPO checkout -- .
   python3 - $id <<'PY'
 import sys,re,json
 id=sys.argv[1]
